@@ -81,3 +81,32 @@ def check_snapshot_update_atomic(f, rule, this_task):
 
 def _contains(f, root, target):
     return target in set(f.ast_walk(root)) if root is not None and root >= 0 else False
+
+
+def check_self_hold_release(ctx, rule, key='self-hold'):
+    """A DTD task that names one tile in two flows, READ first and WRITE later, holds a reader on the copy its own write flow
+    waits for (the writer is deferred with AGAIN while readers > 0).  parsec_insert_dtd_task drops that self-hold when it meets
+    the second flow: under `last_user.task == this_task` with an INPUT previous access, the reader released must be the one taken
+    by the *earlier* flow - data[last_user.flow_index].data_in; the current flow's data_in is not set yet at that point, so
+    testing / releasing it leaves the hold in place and the task is re-run for ever."""
+    from sa.facts import AnalysisBroken
+    f = ctx.extract('parsec/interfaces/dtd/insert_function.c').func('parsec_insert_dtd_task'); ctx.functions_analysed.add(f.name)
+    rels = [e for e in f.calls('parsec_dtd_data_copy_reader_release')]
+    def self_guard(a, t):
+        return t is True and a.k == 'bin' and a.op == '==' and any(x.s.endswith('last_user.task') for x in a.ch)
+    def not_alive(a, t):
+        # TASK_IS_ALIVE == last_user.alive is false: the predecessor completed, its data_in for the current flow is not set yet
+        return t is False and a.k == 'bin' and a.op == '==' and any(x.s.endswith('last_user.alive') for x in a.ch)
+    mine = [e for e in rels if f.guarded_by(e.point, self_guard) and f.guarded_by(e.point, not_alive)]
+    if not mine:
+        rule.bad('%s:release-missing' % key, f.where(), 'parsec_insert_dtd_task no longer releases the reader a task holds on a tile it names twice (READ then WRITE) when the predecessor has completed: the write flow waits for readers == 0 for ever')
+        return
+    for e in mine:
+        arg = e.args[0]
+        idx = [x for x in arg.walk() if x.k == 'idx']
+        ok = bool(idx) and all('last_user.flow_index' in x.ch[1].s for x in idx) and arg.s.endswith('.data_in')
+        # the NULL test that guards it is on the same expression
+        tested = f.guarded_by(e.point, lambda a, t: t is True and a.s == arg.s)
+        rule.expect(ok and tested, '%s:release-earlier-flow' % key, e.loc,
+                    'when the previous user of the tile is the task itself (READ then WRITE on one tile), the reader to release is the one of the earlier flow, data[last_user.flow_index].data_in, tested non-NULL; found %s'
+                    % arg.s, note='self-hold: reader of data[last_user.flow_index].data_in released')
